@@ -32,6 +32,8 @@ pub use branch_stage::verif as branch_stage_verif;
 pub use extend_range_protocol::verif as extend_range_verif;
 #[cfg(nomt_verif)]
 pub use leaf_stage::verif as leaf_stage_verif;
+#[cfg(nomt_verif)]
+pub use self::verif as update_verif;
 
 #[cfg(test)]
 mod tests;
@@ -80,6 +82,13 @@ pub fn update(
         workers,
     )?;
 
+    #[cfg(nomt_verif)]
+    verif::record_leaf_stage(
+        &leaf_stage_outputs.leaf_changeset,
+        &leaf_stage_outputs.freed_pages,
+        leaf_stage_outputs.submitted_io,
+    );
+
     let branch_stage_outputs = branch_stage::run(
         &mut bbn_index,
         bbn_writer,
@@ -89,6 +98,12 @@ pub fn update(
         thread_pool.clone(),
         workers,
     )?;
+
+    #[cfg(nomt_verif)]
+    verif::record_branch_stage(
+        &branch_stage_outputs.freed_pages,
+        branch_stage_outputs.submitted_io,
+    );
 
     let (ln_freelist_pages, ln_meta) =
         leaf_finisher.finish(&page_pool, leaf_stage_outputs.freed_pages)?;
@@ -213,5 +228,308 @@ impl<Node> NodesTracker<Node> {
         self.extra_freed.push(pn);
         self.deferred_drop_pages.push(node.clone());
         self.pending_base = Some((separator, node, cutoff));
+    }
+}
+
+/// Verification hook (compiled only with `--cfg nomt_verif`): the glue of [`update`] around the per-node updaters — the
+/// real `enforce_first_leaf_separator` / `filter_leaves_changeset` / `filter_branch_changeset` on caller-supplied lists,
+/// and the real [`update`] end to end on a caller-supplied tree (leaves built with the real `LeafBuilder`, indexed by
+/// nodes built with the real `BranchNodeBuilder`, two scratch store files; a chosen subset of the leaves in the leaf
+/// cache, the others only on disk) with a recorder of what the leaf stage hands to the branch stage and of the pages
+/// either stage releases. Nothing here is used by the store itself.
+#[cfg(nomt_verif)]
+pub mod verif {
+    use super::branch_stage::verif::StageEnv;
+    use super::branch_updater::verif::{make_node, view_of, NodeView};
+    use super::leaf_updater::verif::{entries_of, make_leaf, Entry};
+    use super::{Index, Key, LeafCache, PageNumber, Store, StoreReader};
+    use crate::beatree::leaf::node::LeafNode;
+    use crate::beatree::ops::bit_ops::separator_len;
+    use crate::beatree::ops::{overflow, search_branch};
+    use crate::beatree::ValueChange;
+    use crate::io::PAGE_SIZE;
+    use std::fs::File;
+    use std::os::unix::fs::FileExt;
+    use std::path::Path;
+    use std::sync::{Arc, Mutex};
+
+    /// What the recorder saw during one [`super::update`].
+    #[derive(Default, Clone, Debug)]
+    pub struct StageRecord {
+        /// `LeafStageOutput::leaf_changeset` as it is handed to the branch stage
+        pub leaf_changeset: Vec<(Key, Option<u32>)>,
+        /// `LeafStageOutput::freed_pages`, in order
+        pub ln_freed: Vec<u32>,
+        pub leaf_submitted_io: usize,
+        /// `BranchStageOutput::freed_pages`, in order
+        pub bbn_freed: Vec<u32>,
+        pub branch_submitted_io: usize,
+        pub leaf_stage_ran: bool,
+        pub branch_stage_ran: bool,
+    }
+
+    static RECORD: Mutex<Option<StageRecord>> = Mutex::new(None);
+
+    pub(super) fn record_leaf_stage(cs: &[(Key, Option<PageNumber>)], freed: &[PageNumber], io: usize) {
+        if let Some(rec) = RECORD.lock().unwrap().as_mut() {
+            rec.leaf_changeset = cs.iter().map(|(k, pn)| (*k, pn.map(|p| p.0))).collect();
+            rec.ln_freed = freed.iter().map(|p| p.0).collect();
+            rec.leaf_submitted_io = io;
+            rec.leaf_stage_ran = true;
+        }
+    }
+
+    pub(super) fn record_branch_stage(freed: &[PageNumber], io: usize) {
+        if let Some(rec) = RECORD.lock().unwrap().as_mut() {
+            rec.bbn_freed = freed.iter().map(|p| p.0).collect();
+            rec.branch_submitted_io = io;
+            rec.branch_stage_ran = true;
+        }
+    }
+
+    /// An index over the leaf level `(separator, page number)`, `fanout` leaves per branch node; the branch nodes get
+    /// the page numbers `bbn_first`, `bbn_first + 1`, …
+    pub fn index_of(leaves: &[(Key, u32)], fanout: usize, bbn_first: u32) -> Index {
+        let mut index = Index::default();
+        for (i, group) in leaves.chunks(fanout.max(1)).enumerate() {
+            let node = make_node(group, 1, separator_len(&group[0].0), bbn_first + i as u32);
+            index.insert(group[0].0, node.0.clone());
+        }
+        index
+    }
+
+    /// The real `enforce_first_leaf_separator` on a caller-supplied changeset and leaf level.
+    pub fn enforce_first(
+        leaves: &[(Key, u32)],
+        fanout: usize,
+        changeset: &[(Key, Option<u32>)],
+    ) -> Vec<(Key, Option<u32>)> {
+        let index = index_of(leaves, fanout, 1_000_000);
+        let mut cs: Vec<(Key, Option<PageNumber>)> =
+            changeset.iter().map(|(k, pn)| (*k, pn.map(PageNumber))).collect();
+        super::leaf_stage::enforce_first_leaf_separator(&mut cs, &index);
+        cs.into_iter().map(|(k, pn)| (k, pn.map(|p| p.0))).collect()
+    }
+
+    /// The real `filter_leaves_changeset` on a caller-supplied list.
+    pub fn filter_leaves(changeset: &[(Key, Option<u32>)]) -> Vec<(Key, Option<u32>)> {
+        let mut cs: Vec<(Key, Option<PageNumber>)> =
+            changeset.iter().map(|(k, pn)| (*k, pn.map(PageNumber))).collect();
+        super::leaf_stage::verif::filter_leaves(&mut cs);
+        cs.into_iter().map(|(k, pn)| (k, pn.map(|p| p.0))).collect()
+    }
+
+    /// The real `filter_branch_changeset` on a caller-supplied list; a node is identified by its `bbn_pn`.
+    pub fn filter_branch(changeset: &[(Key, Option<u32>)]) -> Vec<(Key, Option<u32>)> {
+        let mut cs = changeset
+            .iter()
+            .map(|(k, pn)| (*k, pn.map(|pn| make_node(&[(*k, 7)], 1, separator_len(k), pn).0.clone())))
+            .collect();
+        super::branch_stage::verif::filter_branch(&mut cs);
+        cs.into_iter().map(|(k, n)| (k, n.map(|n| n.bbn_pn()))).collect()
+    }
+
+    /// A change of the batch: `None` = delete, `Some(value)` = insert (inline or overflow is decided the way
+    /// `ValueChange::insert` does, by the length).
+    pub type Change = Option<Vec<u8>>;
+
+    /// The tree read back: the branch nodes of the index (separator in the index, the node) and the leaves the
+    /// branch nodes point to, left to right: separator, page number, entries (key, cell bytes, overflow flag),
+    /// whether the leaf cache holds the leaf.
+    pub struct TreeDump {
+        pub branches: Vec<(Key, NodeView)>,
+        pub leaves: Vec<(Key, u32, Vec<Entry>, bool)>,
+    }
+
+    /// What one [`UpdateSim::update`] returned and recorded.
+    pub struct UpdateOut {
+        pub record: StageRecord,
+        /// `SyncData`
+        pub ln_bump: u32,
+        pub bbn_bump: u32,
+        pub ln_freelist_pn: u32,
+        pub bbn_freelist_pn: u32,
+    }
+
+    pub struct UpdateSim {
+        ln_file: Arc<File>,
+        bbn_file: Arc<File>,
+        index: Index,
+        leaf_cache: LeafCache,
+        ln_bump: u32,
+        bbn_bump: u32,
+    }
+
+    fn open_scratch(path: &Path, pages: u64) -> std::io::Result<Arc<File>> {
+        let file = std::fs::OpenOptions::new()
+            .read(true)
+            .write(true)
+            .create(true)
+            .truncate(true)
+            .open(path)?;
+        file.set_len(pages * PAGE_SIZE as u64)?;
+        Ok(Arc::new(file))
+    }
+
+    impl UpdateSim {
+        /// A tree of the leaves `(separator, page number, entries)` (ascending, the first separator all-zero, inline
+        /// values only), `fanout` leaves per branch node. Every leaf is written to the leaf store file `dir/ln`; the
+        /// leaves whose page number is in `cached` are also put into the leaf cache. Page numbers below `ln_bump` /
+        /// `bbn_bump` are in use; both free lists are empty.
+        pub fn new(
+            env: &StageEnv,
+            dir: &Path,
+            leaves: &[(Key, u32, Vec<Entry>)],
+            fanout: usize,
+            cached: &[u32],
+            ln_bump: u32,
+            bbn_first: u32,
+        ) -> std::io::Result<Self> {
+            let (page_pool, _, _) = env.parts();
+            let ln_file = open_scratch(&dir.join("ln"), ln_bump as u64 + 4096)?;
+            let bbn_file = open_scratch(&dir.join("bbn"), bbn_first as u64 + 4096)?;
+            let leaf_cache = LeafCache::new(1, 1 << 20);
+            for (_, pn, entries) in leaves {
+                let leaf = make_leaf(page_pool, entries);
+                ln_file.write_all_at(&leaf.inner[..], *pn as u64 * PAGE_SIZE as u64)?;
+                if cached.contains(pn) {
+                    leaf_cache.insert(PageNumber(*pn), Arc::new(leaf));
+                }
+            }
+            let seps: Vec<(Key, u32)> = leaves.iter().map(|(k, pn, _)| (*k, *pn)).collect();
+            let index = index_of(&seps, fanout, bbn_first);
+            let nodes = (seps.len() + fanout.max(1) - 1) / fanout.max(1);
+            Ok(UpdateSim {
+                ln_file,
+                bbn_file,
+                index,
+                leaf_cache,
+                ln_bump,
+                bbn_bump: bbn_first + nodes as u32,
+            })
+        }
+
+        /// The real [`super::update`] with `workers` workers on the current tree: both stores are opened over the
+        /// scratch files with the current allocation frontiers and EMPTY free lists (new pages are `bump`,
+        /// `bump + 1`, …; released pages are never reused by a later call), the post-I/O task is awaited, the
+        /// returned index becomes the current tree.
+        pub fn update(
+            &mut self,
+            env: &StageEnv,
+            changeset: &[(Key, Change)],
+            workers: usize,
+        ) -> std::io::Result<UpdateOut> {
+            let (page_pool, io_pool, thread_pool) = env.parts();
+            let leaf_store =
+                Store::verif_with_free_list(self.ln_file.clone(), PageNumber(self.ln_bump), vec![])?;
+            let bbn_store =
+                Store::verif_with_free_list(self.bbn_file.clone(), PageNumber(self.bbn_bump), vec![])?;
+            let changeset: imbl::OrdMap<Key, ValueChange> = changeset
+                .iter()
+                .map(|(k, v)| {
+                    (
+                        *k,
+                        match v {
+                            Some(v) => ValueChange::insert::<crate::hasher::Blake3Hasher>(v.clone()),
+                            None => ValueChange::Delete,
+                        },
+                    )
+                })
+                .collect();
+            *RECORD.lock().unwrap() = Some(StageRecord::default());
+            let result = super::update(
+                changeset,
+                self.index.clone(),
+                self.leaf_cache.clone(),
+                leaf_store,
+                bbn_store,
+                page_pool.clone(),
+                io_pool.make_handle(),
+                thread_pool.clone(),
+                workers,
+            );
+            let record = RECORD.lock().unwrap().take().unwrap_or_default();
+            let (sync_data, index, rx) = result?;
+            // `Tree::prepare_sync`'s caller blocks on this receiver before `finish_sync`
+            let _ = rx.recv();
+            self.index = index;
+            self.ln_bump = sync_data.ln_bump;
+            self.bbn_bump = sync_data.bbn_bump;
+            Ok(UpdateOut {
+                record,
+                ln_bump: sync_data.ln_bump,
+                bbn_bump: sync_data.bbn_bump,
+                ln_freelist_pn: sync_data.ln_freelist_pn,
+                bbn_freelist_pn: sync_data.bbn_freelist_pn,
+            })
+        }
+
+        fn reader(&self, env: &StageEnv) -> std::io::Result<StoreReader> {
+            let (page_pool, _, _) = env.parts();
+            let store =
+                Store::verif_with_free_list(self.ln_file.clone(), PageNumber(self.ln_bump), vec![])?;
+            Ok(StoreReader::new(store, page_pool.clone()))
+        }
+
+        /// The current tree, every leaf read from the leaf store FILE (not from the cache).
+        pub fn dump(&self, env: &StageEnv) -> std::io::Result<TreeDump> {
+            let reader = self.reader(env)?;
+            let mut branches = Vec::new();
+            let mut leaves = Vec::new();
+            let mut cur = match self.index.lookup([0u8; 32]) {
+                Some((k, _)) => Some(k),
+                None => self.index.next_key([0u8; 32]),
+            };
+            while let Some(k) = cur {
+                if let Some((sep, node)) = self.index.lookup(k) {
+                    let view = view_of(&node);
+                    for (key, pn, _) in &view.items {
+                        let leaf = LeafNode { inner: reader.query(PageNumber(*pn)) };
+                        let cached = self.leaf_cache.get(PageNumber(*pn)).map(|c| entries_of(&c));
+                        let entries = entries_of(&leaf);
+                        // a cached leaf that differs from the page on disk is reported as not cached + a marker entry
+                        let same = cached.as_ref().map_or(true, |c| *c == entries);
+                        leaves.push((*key, *pn, entries, cached.is_some() && same));
+                        if !same {
+                            leaves.push((*key, u32::MAX, cached.unwrap(), true));
+                        }
+                    }
+                    branches.push((sep, view));
+                }
+                cur = self.index.next_key(k);
+            }
+            Ok(TreeDump { branches, leaves })
+        }
+
+        /// What the real lookup path finds for `key` in the current tree: `Index::lookup`, `search_branch`, the leaf
+        /// (cache, else the file), `LeafNode::get`, `overflow::read_blocking` for an overflow cell.
+        pub fn lookup(&self, env: &StageEnv, key: Key) -> std::io::Result<Option<Vec<u8>>> {
+            let reader = self.reader(env)?;
+            let Some((_, branch)) = self.index.lookup(key) else { return Ok(None) };
+            let Some((_, leaf_pn)) = search_branch(&branch, key) else { return Ok(None) };
+            let leaf = match self.leaf_cache.get(leaf_pn) {
+                Some(leaf) => leaf,
+                None => Arc::new(LeafNode { inner: reader.query(leaf_pn) }),
+            };
+            Ok(leaf.get(&key).map(|(v, is_overflow)| {
+                if is_overflow {
+                    overflow::read_blocking(v, &reader)
+                } else {
+                    v.to_vec()
+                }
+            }))
+        }
+
+        /// The pages `overflow::delete` would release for this cell in the current leaf store file.
+        pub fn overflow_pages(&self, env: &StageEnv, cell: &[u8]) -> std::io::Result<Vec<u32>> {
+            let reader = self.reader(env)?;
+            let mut freed = Vec::new();
+            overflow::delete(cell, &reader, &mut freed);
+            Ok(freed.into_iter().map(|p| p.0).collect())
+        }
+
+        pub fn bumps(&self) -> (u32, u32) {
+            (self.ln_bump, self.bbn_bump)
+        }
     }
 }
